@@ -86,3 +86,21 @@ PROPS["C11"] = {
                   "definitions; the listed known finding p50-resolution suppresses only median errors up to 1+0.032*n",
     "assumptions": [],
 }
+
+PROPS["C12"] = {
+    "title": "Histogram buckets partition the results",
+    "units": [{"name": "hist", "pkg": "lib", "run": "^TestC12"}],
+    "rule": "rapid draws 1..20 strictly increasing bounds (ns..hours, adjacent bounds 1 ns apart included, first bound "
+            "0 or positive) and latencies exactly on, one below and one above every bound plus random ones and MaxInt64; "
+            "textual specifications '[b1,b2,...]' with arbitrary inner spacing, every unit, decimal fractions and "
+            "compound notation, and malformed ones. Non-trivial histogram case = >= 3 buckets with >= 1 latency exactly "
+            "on an interior bound; non-trivial spec = well-formed with >= 2 bounds; distinct = distinct case.",
+    "explanation": "Oracle: independent binary-search bucket index => expected count vector; Counts/Total compared; text "
+                   "and JSON renderings (also inside the JSON report) parsed back and compared bucket by bucket, also "
+                   "before any result was added; parsed spec == generated bounds with a zero bound prepended iff the "
+                   "first is positive; malformed specs must be rejected, arbitrary inner text must not panic.",
+    "technique": "property-based test against a reference bucket model, boundary-value generation, render/parse-back round trip (rapid)",
+    "level_text": "generated-input search with boundary-value construction against an independent bucket model; cannot prove absence",
+    "level_note": "rendered durations are parsed back with time.ParseDuration; percentages compared to 2 decimals",
+    "assumptions": [],
+}
